@@ -190,6 +190,7 @@ class NP:
     cosh = staticmethod(sym.cosh)
     sinh = staticmethod(sym.sinh)
     arctanh = staticmethod(sym.arctanh)
+    arccosh = staticmethod(sym.arccosh)
     arcsinh = staticmethod(sym.arcsinh)
     sqrt = staticmethod(sym.sqrt)
     radians = staticmethod(sym.radians)
@@ -245,7 +246,7 @@ class NP:
 NUMPY_FUNCS = {
     np.cos: sym.cos, np.sin: sym.sin, np.tan: sym.tan, np.arccos: sym.arccos, np.arcsin: sym.arcsin,
     np.arctan: sym.arctan, np.arctan2: sym.arctan2, np.cosh: sym.cosh, np.sinh: sym.sinh,
-    np.arctanh: sym.arctanh, np.arcsinh: sym.arcsinh, np.sqrt: sym.sqrt, np.radians: sym.radians, np.degrees: sym.degrees,
+    np.arctanh: sym.arctanh, np.arcsinh: sym.arcsinh, np.arccosh: sym.arccosh, np.sqrt: sym.sqrt, np.radians: sym.radians, np.degrees: sym.degrees,
     np.deg2rad: sym.radians, np.rad2deg: sym.degrees, np.ceil: (lambda x: sym.ceil(x) if isinstance(x, SNum) else np.ceil(x)),
     np.floor: (lambda x: sym.floor(x) if isinstance(x, SNum) else np.floor(x)),
 }
